@@ -122,6 +122,23 @@ def stages(sources, tools, work, want=("tok", "past", "code", "eval", "vm", "sem
             out.setdefault(key, []).extend(val + [""] * max(0, p["_n"] - len(val)))
         if any(p["_rc"]):
             bad.append("exit statuses %s" % p["_rc"])
+    # a TIMEOUT of the real evaluator depends on the load of the machine: those sources are evaluated again, one process,
+    # with a budget twenty times as long; what is judged is the second observation
+    if "eval_go" in out:
+        slow = [i for i, l in enumerate(out["eval_go"]) if l.startswith("ERR TIMEOUT")][:60]
+        if slow:
+            hx = os.path.join(work, "retry_src.hex")
+            with open(hx, "w") as f:
+                for i in slow:
+                    f.write(sources[i].encode("utf-8", "surrogateescape").hex() + "\n")
+            env = dict(os.environ, EVALOBS_TIMEOUT_MS="10000")
+            with open(hx, "rb") as fin:
+                r = subprocess.run([tools["evalobs"]], stdin=fin, stdout=subprocess.PIPE, env=env)
+            lines = r.stdout.decode("utf-8", "replace").splitlines()
+            if len(lines) == len(slow):
+                for i, l in zip(slow, lines):
+                    out["eval_go"][i] = l
+            out["_retried_timeouts"] = len(slow)
     out["_problems"] = bad
     return out
 
